@@ -229,22 +229,40 @@ Proof.
 Qed.
 Lemma lower_numeric_first b : numeric_first (lower b) = numeric_first b.
 Proof. unfold numeric_first, is_digit, lower. destruct ((65 <=? b) && (b <=? 90)) eqn:E; lia. Qed.
+(* what Symbol.needPipes = false says, clause by clause *)
+Lemma need_pipes_false (name : list byte) : need_pipes name = false ->
+  flagged name = false /\
+  match name with b :: _ => numeric_first b && numeric_like (map lower name) | [] => false end = false /\
+  name <> [46] /\ is_nil_tok name = false /\ match name with 64 :: _ => False | _ => True end.
+Proof.
+  unfold need_pipes. intros H. apply orb_false_iff in H as [H H5]. apply orb_false_iff in H as [H H4].
+  apply orb_false_iff in H as [H H3]. apply orb_false_iff in H as [H1 H2].
+  repeat split; try assumption.
+  - intros ->. discriminate H3.
+  - destruct name as [|b r]; [exact I|]. destruct b as [|p]; [exact I|].
+    repeat (destruct p as [p|p|]; try exact I). discriminate H5.
+Qed.
 (* a name Symbol.needPipes leaves without bars is resolved to a symbol, whatever the print case *)
 Lemma need_pipes_false_resolves c (name : list byte) : need_pipes name = false ->
   resolve_token (case_name (p_case c) name) = OSym (case_name (p_case c) name).
 Proof.
-  unfold need_pipes. intros H. apply orb_false_iff in H as [H _]. apply orb_false_iff in H as [H _]. apply orb_false_iff in H as [_ H].
-  destruct name as [|b r]; [destruct (p_case c); reflexivity|].
+  intros H. destruct (need_pipes_false name H) as (_ & H2 & _). destruct name as [|b r]; [destruct (p_case c); reflexivity|].
   apply resolve_symbolic. rewrite map_lower_case.
-  destruct (numeric_first b) eqn:Ef; [exact H|]. cbn [map].
+  destruct (numeric_first b) eqn:Ef; [exact H2|]. cbn [map].
   destruct (numeric_like (lower b :: map lower r)) eqn:E; [|reflexivity].
   apply numeric_like_first in E. rewrite lower_numeric_first in E. congruence.
 Qed.
-Lemma need_pipes_false_dot (name : list byte) : need_pipes name = false -> name <> [46].
-Proof. intros H ->. vm_compute in H. discriminate H. Qed.
-
-Lemma need_pipes_false_nil (name : list byte) : need_pipes name = false -> is_nil_tok name = false.
-Proof. unfold need_pipes. intros H. apply orb_false_iff in H as [_ H]. exact H. Qed.
+(* ... and is made of bytes the reader keeps in one token *)
+Lemma need_pipes_false_shape (b : byte) r : forallb (fun x => x <? 256) (b :: r) = true -> need_pipes (b :: r) = false ->
+  token_first b = true /\ forallb token_byte r = true.
+Proof.
+  intros H256 H. destruct (need_pipes_false _ H) as (H1 & _ & _ & _ & H5). cbn [flagged] in H1.
+  apply orb_false_iff in H1 as [Hb Hr]. cbn [forallb] in H256. apply andb_true_iff in H256 as [Hb256 Hr256]. split.
+  - apply unflagged_token_first; [lia|exact Hb|]. destruct (N.eqb_spec b 64) as [->|]; [contradiction|reflexivity].
+  - apply forallb_forall. intros x Hx. rewrite forallb_forall in Hr256. specialize (Hr256 x Hx).
+    apply unflagged_token_byte; [lia|]. destruct (need_pipe x) eqn:E; [|reflexivity].
+    assert (existsb need_pipe r = true) by (apply existsb_exists; exists x; split; assumption). congruence.
+Qed.
 
 Lemma pipe_ok_closed b : pipe_ok_byte b = true /\ b < 128 -> (pipe_ok_byte (lower b) = true /\ lower b < 128) /\ (pipe_ok_byte (upper b) = true /\ upper b < 128).
 Proof.
@@ -253,17 +271,15 @@ Proof.
 Qed.
 
 (* the name as the printer writes it without bars *)
-Lemma bare_reads c (s : list byte) : need_pipes s = false -> bare_ok s = true ->
+Lemma bare_reads c (s : list byte) : forallb (fun x => x <? 256) s = true -> need_pipes s = false -> is_t s = false -> s <> [] ->
   exists y, Reads (case_name (p_case c) s) (TLeaf (LTok (case_name (p_case c) s))) /\
             obj_of_tree (TLeaf (LTok (case_name (p_case c) s))) = Some y /\ obj_equal (OSym s) y = true /\
             ty_eqb (type_of (OSym s)) (type_of y) = true /\ is_dot (TLeaf (LTok (case_name (p_case c) s))) = false /\
             case_name (p_case c) s <> [].
 Proof.
-  unfold bare_ok. intros Hnp H. pose proof (need_pipes_false_resolves c s Hnp) as Hres.
-  pose proof (need_pipes_false_dot s Hnp) as Hdot. pose proof (need_pipes_false_nil s Hnp) as Hnil.
-  apply andb_true_iff in H as [Hshape Ht].
-  destruct s as [|b r]; [discriminate Hshape|]. apply andb_true_iff in Hshape as [Hf Hr].
-  apply negb_true_iff in Ht.
+  intros H256 Hnp Ht Hne. pose proof (need_pipes_false_resolves c s Hnp) as Hres.
+  destruct (need_pipes_false s Hnp) as (_ & _ & Hdot & Hnil & _).
+  destruct s as [|b r]; [contradiction|]. destruct (need_pipes_false_shape b r H256 Hnp) as [Hf Hr].
   set (w := case_name (p_case c) (b :: r)).
   assert (Htok : exists a rest, w = a :: rest /\ token_first a = true /\ forallb token_byte rest = true).
   { assert (HrL : forallb token_byte (map lower r) = true).
@@ -326,7 +342,8 @@ Proof.
   - (* the empty name: || *)
     intros _. exists (TLeaf (LPipe [])), (OSym []). split; [exact (Reads_pipe [] (fun b (H : In b []) => match H with end))|].
     repeat split; try reflexivity; discriminate.
-  - unfold sym_ok, symbol_text. intros H. apply andb_true_iff in H as [Hascii H]. apply andb_true_iff in Hascii as [H256 Hascii].
+  - unfold sym_ok, symbol_text. intros H. apply andb_true_iff in H as [Hascii Ht]. apply andb_true_iff in Hascii as [H256 Hascii].
+    apply negb_true_iff in Ht.
     set (w := case_name (p_case c) (b :: r)).
     destruct (need_pipes (b :: r)) eqn:Enp.
     + (* |name|, escaped *)
@@ -334,7 +351,7 @@ Proof.
       split.
       { apply Reads_pipe_body, pesc_body. apply case_name_bytes; assumption. }
       repeat split; try reflexivity; try discriminate. cbn [obj_equal]. unfold w. rewrite map_lower_case. apply bytes_eqb_refl.
-    + destruct (bare_reads c (b :: r) Enp H) as (y & HR & Ho & He & Ht & Hd & Hne).
+    + destruct (bare_reads c (b :: r) H256 Enp Ht ltac:(discriminate)) as (y & HR & Ho & He & Ht' & Hd & Hne).
       exists (TLeaf (LTok w)), y. repeat split; try assumption. discriminate.
 Qed.
 
